@@ -30,12 +30,13 @@ def escOf (c : UInt8) : UInt8 := if c == 110 then 10 else if c == 116 then 9 els
 NUL, or a backslash with nothing after it) -/
 def unescape : Bytes → Option Bytes
   | [] => some []
-  | [b] => if b == 92 || b == 34 || b == 0 then none else some [b]
-  | b :: c :: rest =>
+  | b :: rest =>
     if b == 92 then
-      if c == 0 then none else (unescape rest).map (escOf c :: ·)
+      match rest with
+      | [] => none
+      | c :: rest' => if c == 0 then none else (unescape rest').map (escOf c :: ·)
     else if b == 34 || b == 0 then none
-    else (unescape (c :: rest)).map (b :: ·)
+    else (unescape rest).map (b :: ·)
 
 inductive Item
   | plain (v : Bytes)
@@ -107,8 +108,7 @@ def lower (b : UInt8) : UInt8 := if 65 ≤ b && b ≤ 90 then b + 32 else b
 def trimRight (v : Bytes) : Bytes := (v.reverse.dropWhile isSpace).reverse
 
 /-- keys in order of first definition -/
-def firstDefs : List Bytes → List Bytes
-  | [] => []
-  | k :: ks => k :: (firstDefs ks).filter (· != k)
+def firstDefs (ks : List Bytes) : List Bytes :=
+  ks.foldl (fun seen k => if seen.contains k then seen else seen ++ [k]) []
 
 end Ctrmml.TagSpec
